@@ -18,6 +18,13 @@ def atomizer(f, index_vars=()):
     def atomize(ff, j):
         n = ff.nodes[j]
         k = n["k"]
+        if k == "ConditionalOperator":
+            # a selection written out where a local used to name it (`porder` = one entry broadcast, or one per dimension): the same atom
+            # as the local's single definition gives
+            s = _render_norm(ff, j, pidx)
+            for v in index_vars:
+                s = re.sub(r"\[%s\]" % re.escape(v), "[#]", s)
+            return "{%s}" % s.replace(" ", "")
         if k in ("MemberExpr", "ArraySubscriptExpr", "DeclRefExpr", "CXXMemberCallExpr", "CXXOperatorCallExpr", "CallExpr"):
             if k == "DeclRefExpr" and n["decl"]["kind"] == "EnumConstant":
                 return None
@@ -157,14 +164,25 @@ def full_range_loop(f, L, bound_atoms):
     return ok_init and ok_cond and ok_inc, "%s; %s; %s" % (init, cond, inc)
 
 
+NAMED_CONSTANTS = {"no_monodim": 4294967295}        # splinetable::no_monodim = PHOTOSPLINE_GLAM_NO_MONODIM = (uint32_t)-1: the name and the value are one thing
+
+
+def _named_constants(leaf):
+    if isinstance(leaf[0], Poly) and any(a in NAMED_CONSTANTS for a in leaf[0].atoms()):
+        p = leaf[0].subst({a: Poly.const(v) for a, v in NAMED_CONSTANTS.items()})
+        return (core.eq_norm(p) if leaf[1] in ("==0", "!=0") else p, leaf[1])
+    return leaf
+
+
 def match_guard(gs, conn, wanted):
     """find a guard whose leaf set equals `wanted` (list of (Poly,rel) / ('call',text))."""
+    wanted = [_named_constants(w) for w in wanted]
     for g in gs:
         if len(g["leaves"]) != len(wanted):
             continue
         if len(wanted) > 1 and g["conn"] != conn:
             continue
-        rest = list(g["leaves"])
+        rest = [_named_constants(l) for l in g["leaves"]]
         ok = True
         for w in wanted:
             if isinstance(w[0], Poly) and w[1] in ("==0", "!=0"):
@@ -302,6 +320,10 @@ def vg1(P, C):
             if k not in count_guard or "cv" in f.nodes[f.strip(idx)]:
                 continue
             ub = next((pos[x][0] for x in f.walk(i) if x in pos), None)
+            y = i
+            while ub is None and y >= 0:            # a node the normal form created: the position of what holds it
+                y = f.parent[y]
+                ub = pos[y][0] if y >= 0 and y in pos else None
             g_b = gb.get(count_guard[k])
             if ub is None or g_b is None or g_b not in dom[ub] or g_b == ub:
                 early.setdefault(k, []).append(f.loc(i))
